@@ -238,7 +238,9 @@ def scen_kw_vs_pos(v, w):
     global LAST_INFO
     cache = ListMap()
     v, w = V(v), V(w)
-    calls = [((v,), []), ((), [('x', v)]), ((), [('y', v)]), ((v,), [('x', w)]), ((), []), ((v,), [])]
+    calls = [((v,), []), ((), [('x', v)]), ((), [('y', v)]), ((v,), [('x', w)]), ((), []), ((v,), []),
+             # a positional *string* equal to a keyword name must not be confused with that keyword
+             (('x', v), []), ((v, 'x', w), []), (('x',), []), ((), [('x', 'x')]), (('x', 'x'), [])]
     devs, info = _run_calls(calls, cache)
     if devs:
         return devs
